@@ -22,7 +22,7 @@ func RunC04(rep *report.Report, tier string) {
 	entries := []string{"ADD nh1", "DELETE nh1", "ADD v4->1"}
 	n, depth := 2, 5
 	if tier == "thorough" {
-		n, depth = 3, 6
+		n, depth = 3, 8 // (as deep as the budget allows: the search reports the depth it completed)
 		ids = Lattice[1:]
 		abs = append(abs, ID{1, 2}, ID{0, ^uint64(0)})
 	}
@@ -39,7 +39,7 @@ func RunC05Hist(rep *report.Report, tier string, dl time.Time) {
 	n, depth := 2, 5
 	ids := Lattice
 	if tier == "thorough" {
-		n, depth = 3, 6
+		n, depth = 3, 8 // (as deep as the budget allows: the search reports the depth it completed)
 		ids = append(append([]ID{}, Lattice...), Boundary...)
 	}
 	ls := MakeLetters(n, ids, []stamp{stOwn}, nil, []string{"ADD nh1"}, nil)
@@ -74,7 +74,7 @@ func RunC05Hist(rep *report.Report, tier string, dl time.Time) {
 func RunC06A(rep *report.Report, tier string, dl time.Time) {
 	n, depth := 2, 5
 	if tier == "thorough" {
-		depth = 6
+		depth = 7
 	}
 	entries := []string{"ADD nh1", "ADD v4->1", "ADD nhg1{1}", "REPLACE v4->2", "DELETE v4", "DELETE nhg1", "ADD nh2 @\"\"", "ADD nh2 @NOPE", "ADD v4@V->1@D"}
 	batches := [][]string{{"ADD v4->1", "ADD nhg1{1}", "ADD nh1"}, {"ADD nh2 @\"\"", "ADD nh1"}, {"ADD nhg2{2}", "ADD nh2"}, {"ADD v6@V->1@D", "ADD nh1", "ADD nhg1{1}"}}
